@@ -1,4 +1,8 @@
 # feature: runtime lookaheads over nonterminals whose names are not Go identifiers (foo-bar, with a template suffix)
+#! pin scanBytes=false
+#! pin caseInsensitive=false
+#! pin nonBacktracking=false
+#! pin tokenColumn=false
 language @NAME@(go);
 
 package = "scratch/@NAME@"
